@@ -486,3 +486,30 @@ Proof.
   split; [apply finder_soundb_true; vm_compute; reflexivity|].
   do 7 (split; [vm_compute; reflexivity|]). vm_compute. reflexivity.
 Qed.
+
+(* the guard-3 decode of SimdLz77 on a token the compressor does emit *)
+Lemma simd_decode_padding_refuted_proof :
+  exists ms bytes total, Forall wt ms /\ encode_matches ms = Some (bytes, total) /\
+                         simd_token 40 40 = Some (Far2Long 40 40) /\ ms = [Far2Long 40 40] /\
+                         simd_decode_matches bytes = Err.
+Proof.
+  exists [Far2Long 40 40], [70; 1; 96; 0], 27.
+  split; [repeat constructor; cbn; lia|].
+  split; [vm_compute; reflexivity|]. split; [vm_compute; reflexivity|]. split; [reflexivity|].
+  vm_compute. reflexivity.
+Qed.
+
+(* hypotheses of simd_compress_defined / simd_token_defined inhabited *)
+Example simd_compress_defined_inhabited :
+  finder_sound ex_x ex_find /\ nlen ex_x <= MAX_DECOMPRESSED_SIZE /\
+  (forall pos, pos < nlen ex_x -> ex_find pos <> AErr) /\
+  (forall pos d len, pos < nlen ex_x -> ex_find pos = AMatch d len -> d <= 65793 /\ len <= 65535).
+Proof.
+  split; [apply finder_soundb_true; vm_compute; reflexivity|].
+  split; [vm_compute; discriminate|]. split.
+  - intros pos _. unfold ex_find. destruct (pos <? 2); discriminate.
+  - intros pos d len _. unfold ex_find. destruct (pos <? 2); [discriminate|].
+    intros H. injection H as <- <-. lia.
+Qed.
+Example simd_token_defined_inhabited : simd_token 300 33 = Some (Far2Short 300 33).
+Proof. vm_compute. reflexivity. Qed.
